@@ -237,12 +237,13 @@ def run(index, rep, tier):
                           "%s: the %s branch selects %s quantities (table / normalisation factor): weighted distances must come from the length table and be normalised by the tree length, unweighted ones from the step table and the edge count" % (g.qualname, what, "/".join(sorted(map(U._nm, us))) or "no"))
             d = index.function(cq + ".distance")
             dflag = [p for p in d.params if "weighted" in p]
-            sw = [i for i in d.node.body if isinstance(i, ast.If) and dflag and norm(i.test) in (dflag[0], "not " + dflag[0])]
+            if not dflag:
+                raise AnalysisError("R14.1: %s: weighted/unweighted dispatch not recognised" % d.qualname)
+            sw = [t.stmt for t in cfg_of(d).nodes if t.kind == "test" and norm(t.ast) == dflag[0]]
             if len(sw) != 1:
                 raise AnalysisError("R14.1: %s: weighted/unweighted dispatch not recognised" % d.qualname)
-            tb, fb = (sw[0].body, sw[0].orelse) if norm(sw[0].test) == dflag[0] else (sw[0].orelse, sw[0].body)
-            tc = {call_name(c) for s in tb for c in ast.walk(s) if isinstance(c, ast.Call)}
-            fc = {call_name(c) for s in fb for c in ast.walk(s) if isinstance(c, ast.Call)}
+            tc = reachable_calls(d, {dflag[0]: True})
+            fc = reachable_calls(d, {dflag[0]: False})
             rep.check("patristic_distance" in tc and "path_edge_count" in fc and "path_edge_count" not in tc and "patristic_distance" not in fc, "R14.1", d.qualname, "dispatch weighted->%s unweighted->%s" % (sorted(tc), sorted(fc)), fn_where(d, sw[0]),
                       "distance(): weighted -> patristic_distance, unweighted -> path_edge_count", "%s dispatches weighted -> %s and unweighted -> %s" % (d.qualname, sorted(tc), sorted(fc)))
 
